@@ -43,10 +43,7 @@ def fieldName (f : Field) : String := f.name
 
 def parseField (s : String) : Option Field := Field.all.find? (fun f => fieldName f == s)
 
-def parseKey (s : String) : Key :=
-  match parseField s with
-  | some f => .field f
-  | none => .dyn s
+def parseKey (s : String) : Key := Key.ofName s
 
 def parsePatch (s : String) : Option Patch :=
   if s == "-" then some [] else
